@@ -106,7 +106,7 @@ class C06(Prop):
         'is inconclusive',
     )
     always_probes = ('tok', 'read')
-    case_alarm = 40
+    case_alarm = 300     # safety net only: verdicts come from the step budgets
     min_nontrivial = 5000
     budget_s = {'quick': 300, 'thorough': 5400}
     exhaustive = {
@@ -155,7 +155,7 @@ class C06(Prop):
         import itertools as _it
         units = [(o,) for o in mutgen.GROWTH_OPEN]
         units += list(_it.product(mutgen.GROWTH_OPEN, repeat=2)) if not q else \
-            [(a, b) for a in mutgen.GROWTH_OPEN[:10] for b in mutgen.GROWTH_OPEN[:10]]
+            [(a, b) for a in mutgen.GROWTH_OPEN[:7] for b in mutgen.GROWTH_OPEN[:7]]
         closers = [(c,) for c in mutgen.GROWTH_CLOSE] if q else \
             list(_it.product(mutgen.GROWTH_CLOSE, repeat=2))
         for u in units:
@@ -168,7 +168,9 @@ class C06(Prop):
             alt = name in mutgen.ALTERNATING
             depths = list(range(1, 13)) + [16] if alt else list(range(1, 41))
             if q:
-                depths = [d for d in depths if d <= 6 or d % 4 == 0]
+                # (super-polynomial shapes are the growth oracle's job in the
+                # quick tier; depth 16 of the alternating towers is thorough)
+                depths = [d for d in depths if (d <= 6 or d % 4 == 0) and not (alt and d > 12)]
             trunc_at = (6,) if alt else ((40, 6) if q else (40, 24, 15, 12, 6, 3))
             for d in depths:
                 if d in trunc_at:
@@ -199,7 +201,7 @@ class C06(Prop):
             n = {}
             for d in (8, 12):
                 s = p['unit'] * d + 'x' + p['closer'] * d
-                install.STEP_BUDGET['limit'] = 200000
+                install.STEP_BUDGET['limit'] = 20000
                 ctx.case_info = {}
                 try:
                     TexSoup(s, tolerance=tol)
